@@ -204,6 +204,8 @@ pub fn run<C: Ciphersuite, L: Lab<C>>(lab: &mut L, p: &Params) {
             if attributable {
                 lab.check(e.culprits() == vec![sender], &format!("part2 names exactly the offending sender: {what}"));
             }
+            // attributable or not: the receiver never blames itself for a peer's fault
+            lab.check(!e.culprits().contains(&me), &format!("part2 never names the receiver itself: {what}"));
         }
         // and part3, were it reached with the receiver's honest round-two secret, does not produce key material either
         if matches!(p.variant, F_MISSING_R1 | F_SURPLUS_R1 | F_OWN_ID_R1 | F_UNKNOWN_R1) {
@@ -227,6 +229,7 @@ pub fn run<C: Ciphersuite, L: Lab<C>>(lab: &mut L, p: &Params) {
             if attributable {
                 lab.check(e.culprits() == vec![sender], &format!("part3 names exactly the offending sender: {what}"));
             }
+            lab.check(!e.culprits().contains(&me), &format!("part3 never names the receiver itself: {what}"));
         }
     } else {
         lab.check(p3.is_ok(), "control: without a fault the receiver completes key generation");
